@@ -28,7 +28,7 @@ theorem head64_intStr (m z : Int) (hz : fits64 z = true) :
     head64 m (intStr z) = some (if z < 0 then (wrap64 (wrap64 (-z) * m), true) else (wrap64 (z * m), false)) := by
   obtain ⟨h1, h2, h3, h4⟩ := intStr_shape z
   unfold head64
-  rw [if_neg h1, if_neg (by simp [h2, h3]), parseInt64_intStr z hz]
+  rw [if_neg (by simp [h1, intStr_ne_plus z]), if_neg (by simp [h2, h3]), parseInt64_intStr z hz]
   by_cases hneg : z < 0
   · simp [hneg]
   · have : ¬ (intStr z).head? = some 45 := fun h => hneg (h4.mp h)
@@ -38,7 +38,7 @@ theorem head128_intStr (m z : Int) :
     head128 m (intStr z) = some (if z < 0 then ((-z) * m, true) else (z * m, false)) := by
   obtain ⟨h1, h2, h3, h4⟩ := intStr_shape z
   unfold head128
-  rw [if_neg h1, if_neg (by simp [h2, h3]), parseSigned_intStr z]
+  rw [if_neg (by simp [h1, intStr_ne_plus z]), if_neg (by simp [h2, h3]), parseSigned_intStr z]
   by_cases hneg : z < 0
   · simp [hneg]
   · have : ¬ (intStr z).head? = some 45 := fun h => hneg (h4.mp h)
